@@ -219,12 +219,12 @@ def oracle(run, focus, sc, rr, cj):
         run.violate("C04/phantom-event", "dispatched events %s were never posted" % (set(extern) - set(posted(sc))), cj)
     if rr.outcome == "quiescent":
         run.count("quiescent")
-        if focus in ("C04", "C05"):
+        if focus in ("C04", "C05", "C16"):
             if not all_done:
                 run.violate("C05/post-never-returns", "quiescent (no thread enabled) but posters %s have not returned" % [
                     i for i in range(np_) if not rr.finished.get("P%d" % i)], cj)
             if rr.final["dq"] and all_done:
-                run.violate("C04/lost-wake-up", "all posts returned, no thread can run, but %s is still in the queue with %d tokens"
+                run.violate(("C16/no-token-for-pending-event" if focus == "C16" else "C04/lost-wake-up"), "all posts returned, no thread can run, but %s is still in the queue with %d tokens"
                             % (rr.final["dq"], rr.final["tok"]), cj)
             if all_done and not rr.final["dq"] and total_posts <= sc.cap and sc.cap >= 50:
                 missing = set(posted(sc)) - set(rr.dispatched)
